@@ -418,7 +418,12 @@ impl Parser {
         let error = expect_punct(tokens.next(), '|');
 
         let arg = match (error, first) {
-            (None, Some(TokenTree::Ident(arg))) => arg,
+            // The parameter becomes `let arg = lex;`: a keyword (`|fn| ...`) is not a name.
+            (None, Some(TokenTree::Ident(arg)))
+                if syn::parse2::<Ident>(TokenTree::Ident(arg.clone()).into()).is_ok() || arg == "_" =>
+            {
+                arg
+            }
             _ => {
                 self.err(
                     "Inline callbacks must use closure syntax with exactly one parameter",
